@@ -383,7 +383,7 @@ where
         Some(Ok(f)) => f,
     };
     // ---- rows on a fresh context
-    let mut uctx: Box<UnwindContext<usize, S>> = Box::new(UnwindContext::new_in());
+    let Some(mut uctx) = ctx.guard("UnwindContext::new_in", &input, || -> Box<UnwindContext<usize, S>> { Box::new(UnwindContext::new_in()) }) else { return };
     ctx.eval();
     ctx.obs("api.rows");
     let Some(o) = ctx.guard("UnwindTable::next_row", &input, || observe_rows(sec, &bases, &fde, &mut uctx, &probe_regs, max_rows)) else { return };
